@@ -443,6 +443,21 @@ static void (*v_hook_try)(void); static void (*v_hook_end)(void); static void (*
 #define V_TRY(secs) (v_watchdog(secs), v_armed = 1, sigsetjmp(v_jmp, 1) == 0 && ((v_hook_try ? v_hook_try() : (void) 0), v_poison_regs(), 1))
 #define V_END do { v_armed = 0; v_watchdog(0); if (v_hook_end) v_hook_end(); if (v_abi_bad) { v_abi_bad = 0; v_viol("abi:callee-saved-register-clobbered", "a kernel returned with rbx, rbp or r12-r15 changed"); } } while (0)
 
+/* a large read-only-ish buffer that costs almost no memory: `total` bytes made of one 2 MiB block of `fill` mapped over and over
+ * (memfd), except that the first block is a private copy that starts with `prefix`.  NULL if the kernel refuses. */
+#include <sys/syscall.h>
+static uint8_t *v_alias_map(size_t total, uint8_t fill, const void *prefix, size_t prefix_len)
+{
+	size_t blk = 2u << 20; total = (total + blk - 1) / blk * blk;
+	int fd = (int) syscall(SYS_memfd_create, "v_alias", 0); if (fd < 0) return NULL;
+	if (ftruncate(fd, (off_t) blk)) { close(fd); return NULL; }
+	uint8_t *b = mmap(0, blk, PROT_READ | PROT_WRITE, MAP_SHARED, fd, 0); if (b == MAP_FAILED) { close(fd); return NULL; } memset(b, fill, blk); munmap(b, blk);
+	uint8_t *base = mmap(0, total + 4096, PROT_NONE, MAP_PRIVATE | MAP_ANONYMOUS | MAP_NORESERVE, -1, 0); if (base == MAP_FAILED) { close(fd); return NULL; }
+	for (size_t o = 0; o < total; o += blk) if (mmap(base + o, blk, PROT_READ | PROT_WRITE, (o == 0 ? MAP_PRIVATE : MAP_SHARED) | MAP_FIXED, fd, 0) == MAP_FAILED) { close(fd); munmap(base, total + 4096); return NULL; }
+	close(fd);
+	if (prefix_len) memcpy(base, prefix, prefix_len);   /* copy-on-write: only the first block becomes private */
+	return base;                                         /* the page behind the buffer stays inaccessible */
+}
 static double v_now(void) { struct timespec t; clock_gettime(CLOCK_MONOTONIC, &t); return t.tv_sec + t.tv_nsec * 1e-9; }
 
 static void v_init(int argc, char **argv)
